@@ -1,7 +1,7 @@
 """C13 — payment quotes are bound to their signer and to every signed field."""
 from cfg import cfg_of
 from flow import Taint, Tracker, backward, callee_matches, field_reads, op_local, prep
-from rules import CallGuard, CallSink, CmpGuard, RetSink, compare_sites
+from rules import CallGuard, CallSink, CmpGuard, RetSink, compare_sites, P, PL
 from props.C04 import call_results, agg_field_operands
 from props.C03 import param_seeds
 
@@ -59,8 +59,8 @@ def run(R):
         prep(bsg)
         ta = Taint(bsg, through="all")
         ok = True
-        for p in PARAMS:
-            seeds = ta.var_locals(p)
+        for i, p in enumerate(PARAMS):
+            seeds = PL(bsg, i)
             if not seeds or 0 not in ta.closure(seeds):
                 ok = False
                 R.viol("C13.signing", "param-dropped:%s" % p, "parameter `%s` of bytes_for_signing does not flow into the returned bytes" % p, bsg, bsg.lines[0])
@@ -93,7 +93,7 @@ def run(R):
                                                   "*PeerId as core::convert::From<libp2p_identity::keypair::PublicKey>>::from"])(b))
         R.gate("C13.verify", chk, RetSink("true"),
                [[CallGuard(["libp2p_identity::keypair::PublicKey::try_decode_protobuf"], ("Ok",), "pub_key decodes")],
-                [CmpGuard(src_own, lambda b: Taint(b).closure(param_seeds("claimed_peer")(b)), "Eq", "PeerId::from(pub_key) == claimed_peer", close=False)],
+                [CmpGuard(src_own, P(1, close=True), "Eq", "PeerId::from(pub_key) == claimed_peer", close=False)],
                 [CallGuard(["libp2p_identity::keypair::PublicKey::verify"], ("true",), "pub_key.verify(bytes, signature)")]],
                descr="check_is_signed_by_claimed_peer is true only for matching identity and valid signature")
         ta = Taint(chk, through="all")
@@ -110,22 +110,7 @@ def run(R):
         R.inst("C13.verify.args", "K6 flows-to", "verify(key = decoded pub_key, msg = bytes_for_sig(), sig = self.signature)", len(ver), ok)
 
     # (3) proof
-    vf = R.body("C13.verify_for", POP + "::verify_for")
-    if vf is not None:
-        R.gate_reject("C13.verify_for", vf, RetSink("true"),
-                      [CallGuard(["*::contains"], ("true",), "payees().contains(peer)"),
-                       CallGuard([PQ + "::check_is_signed_by_claimed_peer"], ("true",), "every quote check_is_signed_by_claimed_peer"),
-                       CallGuard(["ant_evm::data_payments::EncodedPeerId::to_peer_id"], ("Ok",), "encoded peer id decodes")],
-                      descr="verify_for true only if payee and every quote verifies for its claimed payee")
-        # the identity checked is the one the proof claims for that quote
-        prep(vf)
-        ta = Taint(vf, through="all")
-        claimed = ta.closure(call_results(["ant_evm::data_payments::EncodedPeerId::to_peer_id"])(vf))
-        cs = [b for b in vf.blocks if b["term"]["k"] == "call" and callee_matches(b["term"], [PQ + "::check_is_signed_by_claimed_peer"])]
-        ok = bool(cs) and all(op_local(b["term"]["args"][1]) in claimed for b in cs)
-        if not ok:
-            R.viol("C13.verify_for.claimed", "claimed-peer", "verify_for does not check each quote against the peer id the proof claims for it", vf, vf.lines[0])
-        R.inst("C13.verify_for.claimed", "K6 flows-to", "quote checked against its claimed (encoded) peer id", len(cs), ok)
+    verify_for_rules(R, "C13")
     qbp = [b for b in F.item(POP + "::quotes_by_peer") if b.kind == "closure"]
     okq = False
     for c in qbp:
@@ -256,3 +241,45 @@ def run(R):
         else:
             R.viol("C13.signer", "signing-call", "create_quote_for_storecost must call bytes_for_signing once", cq, cq.lines[0])
         R.inst("C13.signer", "K6 flows-to", "signer signs exactly the four values it places in the quote, with its own key", n, ok)
+
+
+def verify_for_rules(R, pfx):
+    """ProofOfPayment::verify_for — shared by C03 and C13"""
+    F = R.F
+    vf = R.body(pfx + ".verify_for", POP + "::verify_for")
+    if vf is None:
+        return
+    prep(vf)
+    decode = CallGuard(["ant_evm::data_payments::EncodedPeerId::to_peer_id"], ("Ok",), "encoded peer id decodes")
+    loop_form = any(b["term"]["k"] == "call" and callee_matches(b["term"], ["ant_evm::data_payments::EncodedPeerId::to_peer_id"]) for b in vf.blocks)
+    R.forall_over_field(pfx + ".verify_for", POP + "::verify_for", "peer_quotes", [PQ + "::check_is_signed_by_claimed_peer"],
+                        "verify_for is true only if every quote verifies for its claimed payee", extra_ok_checks=[decode] if loop_form else [])
+    # payee membership
+    member = CallGuard(["*::contains"], ("true",), "payees().contains(peer)")
+    n_, acc, rej = member.edges(vf)
+    g = cfg_of(vf)
+    trues = set(RetSink("true").blocks(vf)) | {b["id"] for b in vf.blocks if b["term"]["k"] == "call" and (b["term"]["ngen"] or "").endswith("iterator::Iterator::all")}
+    ok = bool(rej) and all(not (g.reach((d,)) & trues) for _, d in rej)
+    if not ok:
+        R.viol(pfx + ".verify_for.member", "payee-membership", "verify_for can return true for a node that is not among the payees", vf, vf.lines[0])
+    R.inst(pfx + ".verify_for.member", "K4r reject-edge", "verify_for false unless payees().contains(peer)", len(rej), ok)
+    # the identity each quote is checked against is the one the proof claims for it
+    okc = False
+    for b in F.item(POP + "::verify_for"):
+        prep(b)
+        cs = [x for x in b.blocks if x["term"]["k"] == "call" and callee_matches(x["term"], [PQ + "::check_is_signed_by_claimed_peer"])]
+        if not cs:
+            continue
+        ta = Taint(b, through="all")
+        claimed = ta.closure(call_results(["ant_evm::data_payments::EncodedPeerId::to_peer_id"])(b))
+        if all(op_local(x["term"]["args"][1]) in claimed for x in cs):
+            okc = True
+        elif b.kind == "closure":
+            # all-form: the claimed id is the closure's element, which must come from to_peer_id in the iterated helper
+            names, _ = __import__("rules")._chain_calls(F, vf, op_local([x for x in vf.blocks if x["term"]["k"] == "call" and (x["term"]["ngen"] or "").endswith("iterator::Iterator::all")][0]["term"]["args"][0]))
+            okc = any(n.endswith("EncodedPeerId::to_peer_id") for n in names) or any(
+                c["ncallee"] == "ant_evm::data_payments::EncodedPeerId::to_peer_id" for hb in F.bodies.values() if hb.crate == "ant_evm" and hb.kind == "closure" for c in hb.calls
+                if F.root_of(hb).npath in names)
+    if not okc:
+        R.viol(pfx + ".verify_for.claimed", "claimed-peer", "verify_for does not check each quote against the peer id the proof claims for it", vf, vf.lines[0])
+    R.inst(pfx + ".verify_for.claimed", "K6 flows-to", "quote checked against its claimed (encoded) peer id", 1, okc)
